@@ -175,7 +175,7 @@ func c26Scenario(cc *c26Case) *schedScenario {
 			return
 		}
 		switch {
-		case strings.HasPrefix(label, "redis.setnx") || strings.HasPrefix(label, "etcd.txn"):
+		case strings.HasPrefix(label, "redis.set") || strings.HasPrefix(label, "etcd.txn"):
 			m.keyPresentAtCreate[thread] = owner
 		case strings.HasPrefix(label, "redis.expire"), strings.HasPrefix(label, "redis.del"):
 			if owner != "" && owner != thread {
